@@ -137,7 +137,7 @@ AmbiTotal(L, b, Fs, fsz) ==
   ELSE b
 AmbiRate(L, b, Fs, fsz) == AmbiTotal(L, b, Fs, fsz) \div L.S
 
------------------------------------------------------------------------------------------------------------------------------------------------------
+-----------------------------------------------------------------------------
 (* rate_allocation: the floor of 500 b/s, the sum.                          *)
 RATE_FLOOR == 500
 
